@@ -117,7 +117,11 @@ def build(E):
                      "R1 + E1 for the protocol part; wiring in start_server decided structurally on the AST"]
     # fingerprint provenance: which certificate, and which function of it (contracts/cert_funcs.py)
     from contracts import cert_funcs
-    cert_funcs.add_targets(E, spec, "C04", which=("fingerprint", "peer"))
+    cert_funcs.add_targets(E, spec, "C04", which=("fingerprint", "peer", "convert"))
+    # PyOpenSSL back end: which certificate the inner protocol's transport carries (TLSServerProtocol.data_received, real body)
+    from contracts import tls_proto
+    tls_proto.add_targets(E, spec, "C04")
+    spec.targets = [t for t in spec.targets if "tls_protocol:" not in t[0] or t[0].endswith("TLSServerProtocol.data_received")]
     from contracts.server_events import no_falsy_middleware
     spec.syntactic.append(("[C04] a configured middleware is always consulted: no middleware class can be falsy (the protocol tests 'if self.middleware:')", no_falsy_middleware))
     return spec
